@@ -70,7 +70,8 @@ static void encFA(Env& env, const std::string& stage, int n, int L, int k) {
 }
 
 // ---- (c) arbitrary text: every token string up to a length, and every single/double token edit of valid templates
-static const char* TOK[17] = {"Ops", "Automaton", "States", "Final", "Transitions", "a", "q", ":", "1", "-1", "(", ")", ",", "->", " ", "\n", "\xff"};
+static const int NTOK = 21;   // keywords, names, punctuation, and EVERY character std::isspace accepts (blank, \n, \t, \r, \v, \f), plus a non-ASCII byte
+static const char* TOK[NTOK] = {"Ops", "Automaton", "States", "Final", "Transitions", "a", "q", ":", "1", "-1", "(", ")", ",", "->", " ", "\n", "\xff", "\t", "\r", "\v", "\f"};
 static int tryAll(const std::string& txt, std::string& where) {   // 0 = every entry point succeeded or threw std::exception; 1 = something else was thrown
   VATA::Parsing::TimbukParser par;
   auto one = [&](const char* nm, std::function<void()> f) { try { f(); } catch (std::exception&) {} catch (...) { where = nm; return 1; } return 0; };
@@ -82,12 +83,12 @@ static int tryAll(const std::string& txt, std::string& where) {   // 0 = every e
   r |= one("BDDTopDownTreeAut::LoadFromString", [&] { BDDTopDownTreeAut a; a.LoadFromString(par, txt); });
   return r;
 }
-static std::string vis(const std::string& s) { std::string o; for (unsigned char ch : s) { if (ch == '\n') o += "\\n"; else if (ch == '\t') o += "\\t"; else if (ch >= 0x7f) o += "\\xff"; else o += char(ch); } return o; }
+static std::string vis(const std::string& s) { std::string o; for (unsigned char ch : s) { if (ch == '\n') o += "\\n"; else if (ch == '\t') o += "\\t"; else if (ch == '\r') o += "\\r"; else if (ch == '\v') o += "\\v"; else if (ch == '\f') o += "\\f"; else if (ch >= 0x7f) o += "\\xff"; else o += char(ch); } return o; }
 static void tokenStrings(Env& env, const std::string& stage, int len) {
-  uint64_t n = 1; for (int i = 0; i < len; i++) n *= 17;
+  uint64_t n = 1; for (int i = 0; i < len; i++) n *= NTOK;
   ParallelOpts o; o.stage = stage; o.size = n; o.block = 512; o.caseTimeout = 5;
-  o.describe = [len](uint64_t idx) { std::string t; for (int i = 0; i < len; i++) { t += TOK[idx % 17]; idx /= 17; } return "text: \"" + vis(t) + "\""; };
-  o.run = [len](uint64_t idx, Ctx& c) { std::string t; uint64_t x = idx; for (int i = 0; i < len; i++) { t += TOK[x % 17]; x /= 17; } c.evals(); c.nontrivial(); std::string where;
+  o.describe = [len](uint64_t idx) { std::string t; for (int i = 0; i < len; i++) { t += TOK[idx % NTOK]; idx /= NTOK; } return "text: \"" + vis(t) + "\""; };
+  o.run = [len](uint64_t idx, Ctx& c) { std::string t; uint64_t x = idx; for (int i = 0; i < len; i++) { t += TOK[x % NTOK]; x /= NTOK; } c.evals(); c.nontrivial(); std::string where;
     if (c.wantSample() && idx % 7919 == 3) c.sample("\"" + vis(t) + "\"");
     if (tryAll(t, where)) c.viol(where, "non_standard_exception_on_arbitrary_text", {}, "text: \"" + vis(t) + "\""); };
   env.parallel(o);
@@ -98,10 +99,10 @@ static const char* TEMPLATES[3] = {
   "Ops\nAutomaton anonymous\nStates\nFinal States\nTransitions\na() -> q\n"};
 static std::vector<std::string> tokenize(const std::string& s) { std::vector<std::string> t; size_t i = 0; while (i < s.size()) { if (isalnum((unsigned char)s[i])) { size_t j = i; while (j < s.size() && isalnum((unsigned char)s[j])) j++; t.push_back(s.substr(i, j - i)); i = j; } else if (s.compare(i, 2, "->") == 0) { t.push_back("->"); i += 2; } else { t.push_back(s.substr(i, 1)); i++; } } return t; }
 // an edit = (position, kind): delete, duplicate, or replace by one of the 17 tokens
-static std::vector<std::string> applyEdit(std::vector<std::string> t, uint64_t e) { size_t pos = e / 19; int kind = (int)(e % 19); if (pos >= t.size()) return t; if (kind == 0) t.erase(t.begin() + pos); else if (kind == 1) t.insert(t.begin() + pos, t[pos]); else t[pos] = TOK[kind - 2]; return t; }
+static std::vector<std::string> applyEdit(std::vector<std::string> t, uint64_t e) { size_t pos = e / (NTOK + 2); int kind = (int)(e % (NTOK + 2)); if (pos >= t.size()) return t; if (kind == 0) t.erase(t.begin() + pos); else if (kind == 1) t.insert(t.begin() + pos, t[pos]); else t[pos] = TOK[kind - 2]; return t; }
 static void templateEdits(Env& env, const std::string& stage, bool doubleEdits) {
   struct T { std::vector<std::string> tok; uint64_t ne; }; auto TS = std::make_shared<std::vector<T>>(); uint64_t total = 0; std::vector<uint64_t> off;
-  for (auto tp : TEMPLATES) { T t; t.tok = tokenize(tp); t.ne = (uint64_t)t.tok.size() * 19; TS->push_back(t); off.push_back(total); total += doubleEdits ? t.ne * (t.ne + 19) : t.ne; }
+  for (auto tp : TEMPLATES) { T t; t.tok = tokenize(tp); t.ne = (uint64_t)t.tok.size() * (NTOK + 2); TS->push_back(t); off.push_back(total); total += doubleEdits ? t.ne * (t.ne + NTOK + 2) : t.ne; }
   auto OFF = std::make_shared<std::vector<uint64_t>>(off);
   auto make = [TS, OFF, doubleEdits](uint64_t idx) { size_t ti = 0; while (ti + 1 < OFF->size() && idx >= (*OFF)[ti + 1]) ti++; uint64_t x = idx - (*OFF)[ti]; const T& t = (*TS)[ti]; std::vector<std::string> r;
     if (!doubleEdits) r = applyEdit(t.tok, x); else { r = applyEdit(t.tok, x % t.ne); r = applyEdit(r, x / t.ne); } std::string s; for (auto& k : r) s += k; return s; };
@@ -118,11 +119,11 @@ static Register b1("c13.enc.tree.n2s2k3", "C13", "every automaton of TA(2,{a:0,b
 static Register b2("c13.enc.tree.n3s3pk3", "C13", "every automaton of TA(3,{a:0,f:1,g:2},<=3): dump/load/dump in the three tree encodings", [](Env& e) { encTree(e, "c13.enc.tree.n3s3pk3", 3, dom::Sigma3p(), 3); });
 static Register b3("c13.enc.fa.n2l2k3", "C13", "every NFA of FA(2,{a,b},<=3) (also with a second start symbol on a start state): dump/load/dump in expl_fa", [](Env& e) { encFA(e, "c13.enc.fa.n2l2k3", 2, 2, 3); });
 static Register b4("c13.enc.fa.n3l2k4", "C13", "every NFA of FA(3,{a,b},<=4): dump/load/dump in expl_fa", [](Env& e) { encFA(e, "c13.enc.fa.n3l2k4", 3, 2, 4); });
-static Register c1("c13.text.len3", "C13", "all 17^3 token strings: parser and the four loaders", [](Env& e) { tokenStrings(e, "c13.text.len3", 3); });
-static Register c2("c13.text.len4", "C13", "all 17^4 token strings", [](Env& e) { tokenStrings(e, "c13.text.len4", 4); });
-static Register c3("c13.text.len5", "C13", "all 17^5 token strings", [](Env& e) { tokenStrings(e, "c13.text.len5", 5); });
-static Register c6("c13.text.len6", "C13", "all 17^6 token strings", [](Env& e) { tokenStrings(e, "c13.text.len6", 6); });
-static Register c4("c13.edit1", "C13", "every single token edit (delete / duplicate / replace by each of 17 tokens) of 3 valid templates", [](Env& e) { templateEdits(e, "c13.edit1", false); });
+static Register c1("c13.text.len3", "C13", "all 21^3 token strings: parser and the four loaders", [](Env& e) { tokenStrings(e, "c13.text.len3", 3); });
+static Register c2("c13.text.len4", "C13", "all 21^4 token strings", [](Env& e) { tokenStrings(e, "c13.text.len4", 4); });
+static Register c3("c13.text.len5", "C13", "all 21^5 token strings", [](Env& e) { tokenStrings(e, "c13.text.len5", 5); });
+static Register c6("c13.text.len6", "C13", "all 21^6 token strings", [](Env& e) { tokenStrings(e, "c13.text.len6", 6); });
+static Register c4("c13.edit1", "C13", "every single token edit (delete / duplicate / replace by each of 21 tokens) of 3 valid templates", [](Env& e) { templateEdits(e, "c13.edit1", false); });
 static Register c5("c13.edit2", "C13", "every double token edit of 3 valid templates", [](Env& e) { templateEdits(e, "c13.edit2", true); });
 
 }  // namespace c13
